@@ -364,7 +364,9 @@ Proof. intros HQ H. destruct (bisect_spec gn Qn tol fuel (s - 5 * Qn) s r ltac:(
 Section ApproxP.
 Variables (sqrtf ppf n1 n2 : Q -> Q) (solve : Q -> Q -> Q).
 Variables (h p K lam mu tol : Q).
-Hypothesis sqrt_sq : forall x, 0 <= x -> sqrtf x * sqrtf x == x.
+(* math.sqrt is an input [sqrtf : Q -> Q]; nothing global is assumed about it (no function Q -> Q squares to the identity: 2 has no
+   rational root). Each theorem takes the squaring error [se] of sqrtf AT THE ONE ARGUMENT the code passes to it; se = 0 when that
+   argument is a perfect square, about 2^-52 of the argument for the binary64 square root. *)
 Hypothesis Hh : 0 < h.
 Hypothesis Hp : 0 < p.
 
@@ -381,15 +383,17 @@ Qed.
 
 (* the returned (r,Q,cost) of the EIL approximation: Q solves its equation exactly (squared form), r solves its equation
    for a Q' within tol of the returned Q, and the cost is the EIL cost formula at (r,Q) *)
-Theorem eil_fixed_point fuel r Qn c : r_q_eil sqrtf ppf n1 h p K lam mu tol fuel = Some (r, Qn, c) ->
-  0 <= 2 * lam * (K + p * n1 r) / h ->
-  h * (Qn * Qn) == 2 * lam * (K + p * n1 r) /\
+Theorem eil_fixed_point se fuel r Qn c : r_q_eil sqrtf ppf n1 h p K lam mu tol fuel = Some (r, Qn, c) ->
+  (let X := 2 * lam * (K + p * n1 r) / h in - se <= sqrtf X * sqrtf X - X <= se) ->
+  - (h * se) <= h * (Qn * Qn) - 2 * lam * (K + p * n1 r) <= h * se /\
   (exists Qp, - tol <= Qn - Qp <= tol /\ r = ppf (1 - Qp * h / (p * lam))) /\
   c = h * (r - mu + Qn / 2) + K * lam / Qn + p * lam * n1 r / Qn.
 Proof.
-  intros H Hnn. destruct (eil_loop_spec _ _ _ _ _ _ H) as (rp & Qp & Hr & HQ & Hc & HdQ & Hdr).
+  intros H Hse. cbv zeta in Hse. destruct (eil_loop_spec _ _ _ _ _ _ H) as (rp & Qp & Hr & HQ & Hc & HdQ & Hdr).
   split; [|split].
-  - rewrite HQ. unfold eil_Q. rewrite sqrt_sq by exact Hnn. field. lra.
+  - rewrite HQ. unfold eil_Q. set (X := 2 * lam * (K + p * n1 r) / h) in *.
+    assert (EX : h * X == 2 * lam * (K + p * n1 r)) by (unfold X; field; lra).
+    set (A := sqrtf X * sqrtf X) in *. nra.
   - exists Qp. split; [exact HdQ | exact Hr].
   - exact Hc.
 Qed.
@@ -406,39 +410,47 @@ Proof.
 Qed.
 
 (* loss-function approximation; eps = residual guaranteed by the root finder *)
-Theorem lossfn_fixed_point eps fuel r Qn :
+Theorem lossfn_fixed_point eps se fuel r Qn :
   (forall rhs x0, - eps <= n1 (solve rhs x0) - rhs <= eps) ->
   r_q_lossfn sqrtf n2 solve h p K lam tol fuel = Some (r, Qn) ->
-  0 <= 2 * (K * lam + (h + p) * n2 r) / h ->
-  h * (Qn * Qn) == 2 * (K * lam + (h + p) * n2 r) /\
+  (let X := 2 * (K * lam + (h + p) * n2 r) / h in - se <= sqrtf X * sqrtf X - X <= se) ->
+  - (h * se) <= h * (Qn * Qn) - 2 * (K * lam + (h + p) * n2 r) <= h * se /\
   exists Qp, - tol <= Qn - Qp <= tol /\ - eps <= n1 r - h * Qp / (h + p) <= eps.
 Proof.
-  intros Hsolve H Hnn. destruct (lf_loop_spec _ _ _ _ _ H) as (rp & Qp & Hr & HQ & HdQ & Hdr).
+  intros Hsolve H Hse. cbv zeta in Hse. destruct (lf_loop_spec _ _ _ _ _ H) as (rp & Qp & Hr & HQ & HdQ & Hdr).
   split.
-  - rewrite HQ. unfold lf_Q. rewrite sqrt_sq by exact Hnn. field. lra.
+  - rewrite HQ. unfold lf_Q. set (X := 2 * (K * lam + (h + p) * n2 r) / h) in *.
+    assert (EX : h * X == 2 * (K * lam + (h + p) * n2 r)) by (unfold X; field; lra).
+    set (A := sqrtf X * sqrtf X) in *. nra.
   - exists Qp. split; [exact HdQ|]. rewrite Hr. unfold lf_r. apply Hsolve.
 Qed.
 
 (* ---- (iv) EOQB and EOQ+SS compositions ---- *)
-Theorem eoqb_composition gn s fuel r Qn : 0 <= K -> 0 <= lam ->
+Theorem eoqb_composition se gn s fuel r Qn :
+  (let X := 2 * K * lam * (h + p) / (h * p) in - se <= sqrtf X * sqrtf X - X <= se) ->
   r_q_eoqb sqrtf h p K lam gn s fuel = Some (r, Qn) ->
-  h * p * (Qn * Qn) == 2 * K * lam * (h + p) /\
+  - (h * p * se) <= h * p * (Qn * Qn) - 2 * K * lam * (h + p) <= h * p * se /\
   (0 <= Qn -> - (1 / 1000000) <= gn r - gn (r + Qn) <= 1 / 1000000 /\ s - 5 * Qn <= r <= s).
 Proof.
-  intros HK Hl H. unfold r_q_eoqb in H.
+  intros Hse H. cbv zeta in Hse. unfold r_q_eoqb in H.
   destruct (r_for_q gn (eoqb sqrtf h p K lam) (1 / 1000000) fuel s) as [r1|] eqn:E; [|discriminate].
   injection H as <- <-. split.
-  - unfold eoqb. rewrite sqrt_sq; [field; lra|].
-    apply Qle_shift_div_l; [nra|]. assert (0 <= K * lam) by nra. nra.
+  - unfold eoqb. set (X := 2 * K * lam * (h + p) / (h * p)) in *.
+    assert (EX : h * p * X == 2 * K * lam * (h + p)) by (unfold X; field; lra).
+    assert (Hhp : 0 < h * p) by nra.
+    set (A := sqrtf X * sqrtf X) in *. nra.
   - intros HQ. apply (r_for_q_exit gn _ _ fuel s r1 HQ E).
 Qed.
 
-Theorem eoqss_composition : 0 <= K -> 0 <= lam ->
+Theorem eoqss_composition se :
+  (let X := 2 * K * lam / h in - se <= sqrtf X * sqrtf X - X <= se) ->
   let '(r, Qn) := r_q_eoqss sqrtf ppf h p K lam in
-  h * (Qn * Qn) == 2 * K * lam /\ r = ppf (p / (p + h)).
+  - (h * se) <= h * (Qn * Qn) - 2 * K * lam <= h * se /\ r = ppf (p / (p + h)).
 Proof.
-  intros HK Hl. unfold r_q_eoqss, eoq. split; [|reflexivity].
-  rewrite sqrt_sq; [field; lra|]. apply Qle_shift_div_l; [lra|]. assert (0 <= K * lam) by nra. lra.
+  intros Hse. cbv zeta in Hse. unfold r_q_eoqss, eoq. split; [|reflexivity].
+  set (X := 2 * K * lam / h) in *.
+  assert (EX : h * X == 2 * K * lam) by (unfold X; field; lra).
+  set (A := sqrtf X * sqrtf X) in *. nra.
 Qed.
 End ApproxP.
 
